@@ -125,6 +125,7 @@ func runC19(r *Run, verifDir string) {
 	r.Rule("C19.W2", "forwarding: stage and core receive the continuation's own context and message; results returned unchanged", 3)
 	r.Rule("C19.W3", "order: stage k gets the continuation for k+1, core runs iff position >= len(chain), first position is 0, registration appends in order", 6)
 	r.Rule("C19.W4", "the middleware slices are written only by registration functions and constructors", 3)
+	r.Rule("C19.W5", "an invocation of a continuation runs the remainder of the chain exactly once on every path", 3)
 	if len(chains) < 3 {
 		r.Unk("C19.W1", "chains", token.NoPos, "%d middleware continuations found; 3 confirmed on the pinned tree", len(chains))
 	}
@@ -322,6 +323,35 @@ func runC19(r *Run, verifDir string) {
 			r.Bad("C19.W3", key, c.stage.Pos(), "%s", w3)
 		} else {
 			r.OK("C19.W3", key, c.stage.Pos(), "element[position] is called with the continuation for position+1; the core runs when position >= len(chain)")
+		}
+		// ---- W5: an invocation of the continuation runs the remainder exactly once — every path from the entry of
+		// the continuation to a return goes through exactly one of {stage call, core call}
+		if c.core != nil {
+			paths, okP := enumeratePaths(c.k, 256)
+			badPos, badN := token.NoPos, 0
+			for _, path := range paths {
+				n := 0
+				for _, b := range path {
+					for _, in := range b.Instrs {
+						if in == ssa.Instruction(c.stage) || in == ssa.Instruction(c.core) {
+							n++
+						}
+					}
+				}
+				if n != 1 {
+					badN = n
+					last := path[len(path)-1]
+					badPos = last.Instrs[len(last.Instrs)-1].Pos()
+				}
+			}
+			switch {
+			case !okP:
+				r.Unk("C19.W5", key, c.k.Pos(), "too many paths through the continuation")
+			case badPos.IsValid() || badN != 0:
+				r.Bad("C19.W5", key, badPos, "the continuation %s can return after running the remainder of the chain %d time(s) instead of once (a path to a return that does not go through exactly one stage or core call): a middleware's call of next then does not execute the inner stages and the core handler the number of times it asked for", key, badN)
+			default:
+				r.OK("C19.W5", key, c.k.Pos(), "%d path(s), each through exactly one stage or core call", len(paths))
+			}
 		}
 		// first position is 0
 		c19Start(r, c)
